@@ -1039,3 +1039,45 @@ theorem filter_other_key (k k' : Str) (hne : lower k' ≠ lower k) (x : HList) :
 
 
 end Wz.C08L
+
+/-! ### Headers.set against its documented meaning -/
+namespace Wz.C08L
+open Wz Hdr
+
+/-- the documented meaning of `Headers.set`: "Remove all header tuples for `key` and add a new one.
+The newly added key either appears at the end of the list if there was no entry or replaces the
+first one." -/
+def specSet (l : HList) (k v : Str) : HList :=
+  if l.any (keyEq k) then
+    l.takeWhile (fun p => !keyEq k p) ++ (k, v) ::
+      ((l.dropWhile (fun p => !keyEq k p)).drop 1).filter (fun p => !keyEq k p)
+  else l ++ [(k, v)]
+
+theorem setLoop_eq (k v : Str) (l : HList) :
+    setLoop k v l = if l.any (keyEq k) then some (specSet l k v) else none := by
+  induction l with
+  | nil => simp [setLoop]
+  | cons p t ih =>
+    simp only [setLoop]
+    cases hp : keyEq k p with
+    | true => simp [specSet, hp, List.takeWhile_cons, List.dropWhile_cons]
+    | false =>
+      simp only [Bool.false_eq_true, if_false, ih, List.any_cons, hp, Bool.false_or]
+      cases ha : t.any (keyEq k) with
+      | false => simp
+      | true =>
+        simp [specSet, ha, hp, List.takeWhile_cons, List.dropWhile_cons]
+
+theorem set_eq_spec (l : HList) (k v : Str) (hv : hasNL v = false) :
+    Hdr.set l k v = (specSet l k v, .ok ()) := by
+  unfold Hdr.set
+  rw [strHeaderValue_ok hv]
+  cases l with
+  | nil => simp [specSet]
+  | cons p t =>
+    simp only [List.isEmpty_cons, Bool.false_eq_true, if_false, setLoop_eq]
+    cases ha : (p :: t).any (keyEq k) with
+    | true => simp
+    | false => simp [specSet, ha]
+
+end Wz.C08L
